@@ -92,8 +92,10 @@ Section WithTable.
   (* find_edge_barriers: (tick_edges, barrier_pairs) *)
   Definition tick_edges (g : graph) : list (N * delay) :=
     flat_map (fun e => match edge_delay g e with Some d => [(e_id e, d)] | None => [] end) (g_edges g).
+  (* since /repo 155f525eb46: a delayed edge from a node to itself is not an enemy pair *)
   Definition barrier_pairs (g : graph) : list (N * N) :=
-    flat_map (fun e => if is_tick g e then [(e_src e, e_dst e)] else []) (g_edges g).
+    flat_map (fun e => if is_tick g e && negb (N.eqb (e_src e) (e_dst e)) then [(e_src e, e_dst e)] else [])
+             (g_edges g).
 
   (* ---- find_access_group_ordering.
      node_handoff_reference_groups: BTreeMap target -> BTreeMap (Option<u32>) -> Vec<(node,..)>.
@@ -161,15 +163,44 @@ Section WithTable.
       | None => []
       end) (g_edges g).
 
-  Definition pred_pairs (g : graph) (ap : list (N * N)) : list (N * N) :=
-    pipe_pairs g ++ ref_dep_pairs g ++ access_dep_pairs ap ++ ingress_pairs g.
-
   Definition preds_from (pairs : list (N * N)) (n : N) : list N :=
     map snd (filter (fun p => N.eqb (fst p) n) pairs).
 
+  Definition base_pairs (g : graph) (ap : list (N * N)) : list (N * N) :=
+    pipe_pairs g ++ ref_dep_pairs g ++ access_dep_pairs ap ++ ingress_pairs g.
+
+  (* loop-ingress ordering for ALL dependencies (since /repo 0840b054cc8).
+     `all_preds.iter()` of the SecondaryMap: keys in slot order, each with its Vec in push order;
+     keys that are not nodes of the graph (stale loop_nodes entries) are skipped. *)
+  Definition snapshot (pairs : list (N * N)) : list (N * N) :=
+    flat_map (fun d => map (fun s => (d, s)) (preds_from pairs d)) (sort_dedup (map fst pairs)).
+
+  (* does loop l (transitively) contain a node whose loop is sl? *)
+  Fixpoint loop_contains (fuel : nat) (g : graph) (sl : option N) (l : N) : bool :=
+    match fuel, sl with
+    | S f, Some x => N.eqb x l || loop_contains f g (loop_parent g x) l
+    | _, _ => false
+    end.
+  (* the loops of dst, innermost first, up to (excluding) the first one that contains src *)
+  Fixpoint climb (fuel : nat) (g : graph) (cur : option N) (src : N) : list N :=
+    match fuel, cur with
+    | S f, Some l => if loop_contains (S (List.length (g_loops g))) g (node_loop g src) l then []
+                     else l :: climb f g (loop_parent g l) src
+    | _, _ => []
+    end.
+  Definition gen_ingress_pairs (g : graph) (pairs : list (N * N)) : list (N * N) :=
+    flat_map (fun p =>
+      if memN (fst p) (node_ids g)
+      then flat_map (fun l => map (fun i => (i, snd p)) (loop_nodes g l))
+                    (climb (S (List.length (g_loops g))) g (node_loop g (fst p)) (snd p))
+      else []) (snapshot pairs).
+
+  Definition pred_pairs (g : graph) (ap : list (N * N)) : list (N * N) :=
+    base_pairs g ap ++ gen_ingress_pairs g (base_pairs g ap).
+
   (* The dependency graph the partitioner actually sorts ("same-tick dependencies"):
      non-delayed pipe edges, reference edges (+ borrower-before-consumer), access-group order,
-     loop-ingress constraints.  Uses the raw access pairs, so that it is defined (with a
+     loop-ingress constraints (for pipe edges, and -- generalised -- for every dependency).  Uses the raw access pairs, so that it is defined (with a
      self-loop) also where the Rust code panics. *)
   Definition same_tick_deps (g : graph) : N -> list N :=
     preds_from (pred_pairs g (access_pairs_raw g)).
